@@ -6,13 +6,13 @@ import time
 
 from hypothesis import strategies as st
 
-from .. import common, env, harness, runner, scenario as sc, wire
+from .. import common, env, expect, harness, runner, scenario as sc, wire
 from ..harness import Violation
 
 ID = "C03"
 LEVEL = "exploration"
 RULE = ("(a) metamorphic: Hypothesis-generated sessions run once with whole reads and once with a generated read-fragmentation tape (1-byte reads, cuts at every header/payload "
-        "offset, bounded runs of empty reads, cyclic and one-shot tapes): results, exception types and host packets must be identical, and at every bulk_read the requested size "
+        "offset, bounded runs of empty reads, cyclic and one-shot tapes): results (type-strict), exception types and host packets must be identical, the whole-read run must give the model's results (payloads include 64-300 KB of high bytes whose byte sum needs more than 24 bits), and at every bulk_read the requested size "
         "must not exceed what remains of the packet in flight. (b) corruption: one device packet per case gets one payload byte or bit changed, or its header checksum field changed (or zeroed; payloads incl. all-NUL ones whose true checksum is 0) "
         "-> the running operation must raise InvalidChecksumError and the corrupted payload must not reach a result; or its command word replaced by a value outside the seven "
         "-> InvalidCommandError. (c, thorough) coverage-guided fuzzing (atheris) of connect() on raw inbound bytes against a reference parser. "
@@ -28,6 +28,14 @@ def frag_cases(draw):
         mode = draw(st.sampled_from(["key", "pubkey"]))
         case["device"]["auth"] = {"mode": mode, "accept": "k1"}
         case["connect"] = {"keys": [{"tag": "k0"}, {"tag": "k1"}], "auth_timeout_s": draw(st.sampled_from([None, 0, 0.5, 10.0])), "callback": draw(st.booleans())}
+    if draw(st.sampled_from([False] * 5 + [True])):
+        # one large payload of high bytes: its byte sum lies around / above 2^24 (65793 * 255 = 2^24 - 1), i.e. the checksum needs more than 24 bits
+        for o in case["ops"]:
+            if o["op"] in ("shell", "exec_out", "streaming_shell"):
+                key = (b"exec:" if o["op"] == "exec_out" else b"shell:") + o["cmd"].encode()
+                case["device"]["services"][key] = [draw(st.sampled_from([b"\xff", b"\xff", b"\xfe\xff", b"\x80"])) * draw(st.sampled_from([65793, 65794, 70000, 300000]))]
+                o["decode"] = False
+                break
     return case
 
 
@@ -49,6 +57,11 @@ def check_frag(case):
         if o.core.overreads:
             idx, req, rem = o.core.overreads[0]
             return Violation("over-read", "%s run: bulk_read requested %d bytes but only %d remain in the current packet (transport call #%d)" % (name, req, rem, idx)), info
+    # absolute part of the oracle: with whole reads every valid packet is accepted and every operation gives the model's result
+    for op, res in zip(o1.ops[1:], o1.results[1:]):
+        v = expect.compare(case, op, res, case["device"])
+        if v is not None:
+            return Violation("valid-traffic-wrong-result", "whole reads, no corruption: %s" % v.detail), info
     r1, r2 = summarize(o1), summarize(o2)
     if r1 != r2:
         k = next(i for i, (a, b) in enumerate(zip(r1, r2)) if a != b)
@@ -86,7 +99,9 @@ def corrupt_cases(draw):
         for f in (case["device"].get("fs") or {}).values():
             f["content"] = {"pat": b"\0", "n": f["content"]["n"]}
     case["transport"]["corrupt"] = {"k": draw(st.integers(0, 12)), "mode": draw(st.sampled_from(["byte", "bit", "hdr", "hdr-zero", "cmd", "cmd"])),
-                                    "pos": draw(st.integers(0, 5000)), "val": draw(st.one_of(st.integers(0, 2 ** 32 - 1), st.sampled_from([0, 0x4e584e42, 0x58585858, 0x45545258]))),
+                                    "pos": draw(st.integers(0, 5000)), "val": draw(st.one_of(st.integers(0, 2 ** 32 - 1), st.sampled_from([0, 0x4e584e42, 0x58585858, 0x45545258]),
+                                                                                                 # real ADB / filesync words that are not among the seven commands the library handles
+                                                                                                 st.sampled_from([b"STLS", b"FAIL", b"DATA", b"DONE", b"SEND", b"RECV", b"STAT", b"LIST", b"DENT", b"QUIT", b"okay", b"Wrte"]).map(lambda w: int.from_bytes(w, "little")))),
                                     "fix_magic": draw(st.booleans())}
     return case
 
